@@ -270,6 +270,9 @@ def check_amounts(strs, ctx):
     if 'crash' in r or 'exit' in r:
         raise Violation(case, 'amount parsing died: %r' % r, observed=r)
     exp = [exact_amount(s) for s in strs]
+    if plain and 'any' in exp:
+        ctx.count('amount-beyond-18-digits')
+        return
     if plain:
         if not r.get('ok'):
             raise Violation(case, 'well-formed amount list rejected', observed=r)
@@ -330,6 +333,7 @@ def w_cli(ctx, wid, seed, examples):
         blocks, err, status = rp.session([], timeout=10)
         if status != 'ok':
             ctx.inconclusive += 1
+            ctx.notes.append('cli sample: session status %s for a %d-byte tx with %d inputs (stderr tail %r)' % (status, len(enc), len(t.vin), err[-120:]))
             continue
         m = re.search(r'got (segwit )?transaction ([0-9a-f]{64}):', err)
         want = T.dsha(t.ser(False))[::-1].hex()
